@@ -26,6 +26,7 @@ type item struct {
 type position struct {
 	name   string // "global", "param", ...
 	kind   string // token kind of Literals.tla Part 2
+	enc    string // the encoder of internal/enc that spells this position (site of printer-side findings)
 	strip  string // sigil in front of the quoted string that is not part of the "string" token (! or c)
 	nul    bool   // NUL bytes are permitted here
 	single bool   // one item per module
@@ -125,7 +126,7 @@ func findGlobal(m *ir.Module, name string) *ir.Global {
 
 // globalString is the shape shared by the string fields of a global variable.
 func globalString(name, field, keyword string, set func(g *ir.Global, s string), get func(g *ir.Global) string) *position {
-	return &position{name: name, kind: "string",
+	return &position{name: name, enc: "enc.Quote", kind: "string",
 		build: func(m *ir.Module, its []item) {
 			for _, it := range its {
 				g := m.NewGlobalDef(fmt.Sprintf("%s%d", field, it.idx), i32(it.idx))
@@ -161,7 +162,8 @@ func funcAttr(name string, key bool) *position {
 		}
 		return ir.AttrPair{Key: "k", Value: b}
 	}
-	return &position{name: name, kind: "string",
+	// llvm-dis prints the key of a string attribute without escaping (Attribute::getAsString)
+	return &position{name: name, enc: "enc.Quote", kind: "string", asOnly: key,
 		build: func(m *ir.Module, its []item) {
 			for _, it := range its {
 				f := m.NewFunc(fmt.Sprintf("f%d", it.idx), types.Void)
@@ -219,7 +221,7 @@ func funcAttr(name string, key bool) *position {
 // positions lists the identifier and string positions exercised.
 func positions() []*position {
 	ps := []*position{
-		{name: "global", kind: "global",
+		{name: "global", enc: "enc.GlobalName", kind: "global",
 			build: func(m *ir.Module, its []item) {
 				for _, it := range its {
 					m.NewGlobalDef(it.b, i32(it.idx))
@@ -247,7 +249,7 @@ func positions() []*position {
 				return "", false, false
 			},
 		},
-		{name: "param", kind: "local",
+		{name: "param", enc: "enc.LocalName", kind: "local",
 			build: func(m *ir.Module, its []item) {
 				for _, it := range its {
 					f := m.NewFunc(fmt.Sprintf("f%d", it.idx), types.Void, ir.NewParam(it.b, types.I32))
@@ -277,7 +279,7 @@ func positions() []*position {
 				return p.LocalName, false, true
 			},
 		},
-		{name: "inst", kind: "local",
+		{name: "inst", enc: "enc.LocalName", kind: "local",
 			build: func(m *ir.Module, its []item) {
 				for _, it := range its {
 					f := m.NewFunc(fmt.Sprintf("f%d", it.idx), types.I32, ir.NewParam("", types.I32))
@@ -316,7 +318,7 @@ func positions() []*position {
 				return add.LocalName, false, true
 			},
 		},
-		{name: "label", kind: "label",
+		{name: "label", enc: "enc.LabelName", kind: "label",
 			build: func(m *ir.Module, its []item) {
 				for _, it := range its {
 					f := m.NewFunc(fmt.Sprintf("f%d", it.idx), types.I32)
@@ -352,7 +354,7 @@ func positions() []*position {
 				return b.LocalName, false, true
 			},
 		},
-		{name: "type", kind: "type",
+		{name: "type", enc: "enc.TypeName", kind: "type",
 			build: func(m *ir.Module, its []item) {
 				for _, it := range its {
 					st := types.NewStruct(types.NewInt(32), types.NewArray(uint64(it.idx), types.NewInt(8)))
@@ -385,7 +387,7 @@ func positions() []*position {
 				return st.TypeName, false, true
 			},
 		},
-		{name: "comdat", kind: "comdat",
+		{name: "comdat", enc: "enc.ComdatName", kind: "comdat",
 			build: func(m *ir.Module, its []item) {
 				for _, it := range its {
 					cd := &ir.ComdatDef{Name: it.b, Kind: enum.SelectionKindAny}
@@ -416,7 +418,7 @@ func positions() []*position {
 				return g.Comdat.Name, false, true
 			},
 		},
-		{name: "mdname", kind: "mdname",
+		{name: "mdname", enc: "enc.MetadataName", kind: "mdname",
 			build: func(m *ir.Module, its []item) {
 				for _, it := range its {
 					node := &metadata.Tuple{MetadataID: -1, Fields: []metadata.Field{i32(it.idx)}}
@@ -460,7 +462,7 @@ func positions() []*position {
 		funcAttr("attrval", false),
 		globalString("section", "s", "section", func(g *ir.Global, s string) { g.Section = s }, func(g *ir.Global) string { return g.Section }),
 		globalString("partition", "p", "partition", func(g *ir.Global, s string) { g.Partition = s }, func(g *ir.Global) string { return g.Partition }),
-		{name: "gc", kind: "string", asOnly: true,
+		{name: "gc", enc: "enc.Quote", kind: "string", asOnly: true,
 			build: func(m *ir.Module, its []item) {
 				for _, it := range its {
 					f := m.NewFunc(fmt.Sprintf("f%d", it.idx), types.Void)
@@ -487,7 +489,7 @@ func positions() []*position {
 				return f.GC, false, true
 			},
 		},
-		{name: "asm", kind: "string",
+		{name: "asm", enc: "enc.Quote", kind: "string",
 			build: func(m *ir.Module, its []item) {
 				for _, it := range its {
 					f := m.NewFunc(fmt.Sprintf("f%d", it.idx), types.Void)
@@ -536,7 +538,7 @@ func positions() []*position {
 				return ia.Asm, false, true
 			},
 		},
-		{name: "mdstring", kind: "string", strip: "!", nul: true,
+		{name: "mdstring", enc: "enc.Quote", kind: "string", strip: "!", nul: true,
 			build: func(m *ir.Module, its []item) {
 				var nodes []metadata.Node
 				for _, it := range its {
@@ -583,7 +585,7 @@ func positions() []*position {
 				return "", false, false
 			},
 		},
-		{name: "chararray", kind: "string", strip: "c", nul: true,
+		{name: "chararray", enc: "enc.Quote", kind: "string", strip: "c", nul: true,
 			build: func(m *ir.Module, its []item) {
 				for _, it := range its {
 					m.NewGlobalDef(fmt.Sprintf("a%d", it.idx), constant.NewCharArray([]byte(it.b)))
@@ -598,6 +600,10 @@ func positions() []*position {
 			},
 			find: func(text string, it item) (string, bool) {
 				rest, ok := afterPrefix(text, fmt.Sprintf("@a%d = global [%d x i8] ", it.idx, len(it.b)))
+				if strings.HasPrefix(rest, "zeroinitializer") && strings.Count(it.b, "\x00") == len(it.b) {
+					// LLVM folds an all-zero array; its spelling of the bytes is then
+					return `c"` + strings.Repeat(`\00`, len(it.b)) + `"`, ok
+				}
 				return scanTok(rest, false), ok
 			},
 			back: func(m *ir.Module, it item) (string, bool, bool) {
@@ -612,7 +618,7 @@ func positions() []*position {
 				return string(ca.X), false, true
 			},
 		},
-		{name: "source_filename", kind: "string", single: true,
+		{name: "source_filename", enc: "enc.Quote", kind: "string", single: true,
 			build: func(m *ir.Module, its []item) { m.SourceFilename = its[0].b },
 			text: func(toks []string, its []item) string {
 				return "source_filename = " + toks[0] + "\n"
@@ -623,7 +629,7 @@ func positions() []*position {
 			},
 			back: func(m *ir.Module, it item) (string, bool, bool) { return m.SourceFilename, false, true },
 		},
-		{name: "moduleasm", kind: "string", noLF: true,
+		{name: "moduleasm", enc: "enc.Quote", kind: "string", noLF: true,
 			build: func(m *ir.Module, its []item) {
 				for _, it := range its {
 					m.ModuleAsms = append(m.ModuleAsms, it.b)
